@@ -44,6 +44,12 @@ def child_main(db, logpath, crash_at, scenario, seed, slow=False):
 
         def execute(self, sql, *a):
             point("exec-before")
+            if scenario == "contended" and state.get("in_sync") and "INSERT INTO individuals" in sql:
+                # lock contention at the sqlite3 boundary: what a second connection holding the write lock beyond the busy timeout causes
+                state["upserts"] = state.get("upserts", 0) + 1
+                if state["upserts"] in (2, 5):      # only inside sync_individual (which retries); sync_all has no retry and may raise
+                    point("exec-locked")
+                    raise sqlite3.OperationalError("database is locked")
             r = self._c.execute(sql, *a)
             point("exec-after")
             return r
@@ -86,18 +92,22 @@ def child_main(db, logpath, crash_at, scenario, seed, slow=False):
         real_sync = store.sync_individual
 
         def sync_individual(ind):
-            real_sync(ind)
+            state["in_sync"] = state.get("in_sync", 0) + 1
+            try:
+                real_sync(ind)
+            finally:
+                state["in_sync"] -= 1
             with lock:
                 log({"ev": "syncret", "id": int(ind.id), "vector": [float(v) for v in ind.vector], "costs": [float(c) for c in ind.costs]})
         store.sync_individual = sync_individual
         problem.data_store = store
         log({"ev": "created"})
         state["armed"] = True            # the property starts once the store has been created for the run
-        if scenario in ("serial", "parallel"):
+        if scenario in ("serial", "parallel", "contended"):
             from artap.algorithm import DummyAlgorithm
             alg = DummyAlgorithm(problem)
-            alg.options['max_processes'] = 1 if scenario == "serial" else 2
-            inds = [Individual([round(rng.uniform(-5, 5), 6), round(rng.uniform(-5, 5), 6)]) for _ in range(3 if scenario == "serial" else 4)]
+            alg.options['max_processes'] = 2 if scenario == "parallel" else 1
+            inds = [Individual([round(rng.uniform(-5, 5), 6), round(rng.uniform(-5, 5), 6)]) for _ in range(4 if scenario == "parallel" else 3)]
             for i in inds:
                 problem.individuals.append(i)
             alg.evaluate(inds)
